@@ -707,6 +707,12 @@ func (s *Service) requestMsgRecord(msg service.DIDCommMsg, ctx service.DIDCommCo
 		return nil, fmt.Errorf("missing connection field on connection request with @id=%s", request.ID)
 	}
 
+	// a request starts its thread: the state check is made on the message's thread id while the record, the thread
+	// mapping and the response are keyed on the request's @id, so the two must be the same.
+	if thID, e := msg.ThreadID(); e != nil || thID != request.ID {
+		return nil, fmt.Errorf("thread ID of %s request differs from its @id=%s", "connection", request.ID)
+	}
+
 	connRecord := &connection.Record{
 		TheirLabel:              request.Label,
 		ConnectionID:            generateRandomID(),
